@@ -18,6 +18,57 @@ HOISTS = [
 ]
 SIG = [{'where': 'sig', 'rule': 'R2', 'find': 'out: &mut impl io::Write', 'replace': 'out: &mut Sink'}]
 
+# ---- PdfString::serialize: the two byte loops are recognised by SHAPE (any `for P in <expr> {`), not by name or order.
+# Both loops carry the SAME invariant: "what has been written since the loop was entered is the hexadecimal body of the bytes
+# taken so far, behind `<`  --or--  their literal body, behind `(`".  `o0__` (ghost, injected in front of every `for`) is the
+# output at loop entry: which of the two delimiters it ends in is a fact about an unmodified ghost name, so the verifier knows
+# inside the loop which form is being written -- whichever branch comes first in the source.
+EITHER_FORM = ('(o0__ == old(out)@ + seq![60u8] && out@ =~= o0__ + hex_body(self.data@.take(it.index@ as int))) || '
+               '(o0__ == old(out)@ + seq![40u8] && out@ =~= o0__ + lit_body(self.data@.take(it.index@ as int)))')
+BYTE_LOOP = {'for_ghost': 'it', 'invariant': ['out.infallible() == old(out).infallible()', ('string_spelling', EITHER_FORM)]}
+
+
+# ---- a `const NAME: &[u8] = b"...";` item next to the functions (optional item `const bytes`).  Verus knows nothing about
+# the CONTENT of a byte-string literal, so the literal is re-spelled (R2) as the array literal of the same bytes -- computed
+# here from the literal's own text by Rust's escape rules -- and the const gets that content as its (proved) `ensures`.
+# A literal this function cannot read is left as it is behind an undefined macro: compile error => UNDECIDED, never an alarm.
+def _byte_string_values(lit):
+    out, i = [], 0
+    simple = {'n': 10, 'r': 13, 't': 9, '\\': 92, '0': 0, "'": 39, '"': 34}
+    hexd = '0123456789abcdefABCDEF'
+    while i < len(lit):
+        c = lit[i]
+        if c == '\\':
+            e = lit[i + 1:i + 2]
+            if e in simple:
+                out.append(simple[e])
+                i += 2
+            elif e == 'x' and len(lit[i + 2:i + 4]) == 2 and all(h in hexd for h in lit[i + 2:i + 4]):
+                out.append(int(lit[i + 2:i + 4], 16))
+                i += 4
+            else:
+                return None           # line continuation, unknown escape
+        elif 32 <= ord(c) < 127:
+            out.append(ord(c))
+            i += 1
+        else:
+            return None
+    return out
+
+
+def _bytes_const(m):
+    name, lit = m.group(1), m.group(2)
+    vals = _byte_string_values(lit)
+    if not vals:
+        return 'unreadable_byte_string_literal!(); ' + m.group(0)
+    arr = ', '.join('%du8' % v for v in vals)
+    return "exec const %s: &'static [u8] ensures %s@ =~= seq![%s] { &[%s] }" % (name, name, arr, arr)
+
+
+_CONST_HEAD = r"(?:pub(?:\s*\([^)]*\))?\s+)?const\s+(\w+)\s*:\s*&\s*(?:'static\s+)?\[\s*u8\s*\]\s*=\s*b"
+BYTES_CONST_HEADER = '^' + _CONST_HEAD + '"'
+BYTES_CONST_ITEM = _CONST_HEAD + r'"((?:[^"\\]|\\.)*)"\s*;'
+
 UNIT = {
  'name': 'serial_leaf',
  'doc': 'Leaf serialisers (PdfString::serialize, serialize_name) emit a conformant spelling that the lexer spec reads back',
@@ -37,24 +88,24 @@ UNIT = {
         ('string_ok_on_infallible_sink', 'old(out).infallible() ==> r is Ok'),
         ('string_sink_kind_kept', 'final(out).infallible() == old(out).infallible()'),
      ],
-     'loops': {
-        1: {'for_ghost': 'it', 'invariant': [
-              'out.infallible() == old(out).infallible()',
-              ('string_spelling', 'out@ == old(out)@ + seq![60u8] + hex_body(self.data@.take(it.index@ as int))')]},
-        2: {'for_ghost': 'it', 'invariant': [
-              'out.infallible() == old(out).infallible()',
-              ('string_spelling', 'out@ == old(out)@ + seq![40u8] + lit_body(self.data@.take(it.index@ as int))')]},
-     },
+     'loops': {1: BYTE_LOOP, 2: BYTE_LOOP},
      'rewrites': SIG + [
         {'rule': 'R7', 'find': 'self.data.iter().any(|&b| b >= 0x80)', 'replace': 'hoist_any_ge_0x80(&self.data)'},
+        # R2: deref coercion `IBytes -> [u8]` made explicit (vstd knows `<[u8]>::iter`)
+        {'rule': 'R2', 'regex': r'self\.data\.iter\(\)', 'replace': 'self.data.as_slice().iter()', 'count': '*'},
      ] + HOISTS + [
-        # R1 ghost injections
-        {'rule': 'R1', 'regex': r'\A\s*\{', 'replace': '{ proof { lemma_lits(); }'},
-        {'rule': 'R1', 'regex': r'(in self\.data\.as_slice\(\) \{ let \w+ = \*\w+;)',
-         'replace': r'\1 proof { lemma_hex_step(self.data@, it.index@ as int); lemma_lit_step(self.data@, it.index@ as int); }',
-         'count': 2},
-        {'rule': 'R1', 'regex': r'hoist_write_lit\(out, (">"|r"\)")\)', 'replace': r'proof { assert(self.data@.take(self.data@.len() as int) =~= self.data@); } hoist_write_lit(out, \1)', 'count': 2},
+        # R1 ghost injections, anchored on shapes (`for P in E {`, the closing delimiter); binder names captured.
+        # A loop of another structure (`while let` over runs, index arithmetic) has no `it`: compile error => UNDECIDED
+        # (the bounded native stand-in of units/primser then decides).
+        {'rule': 'R1', 'regex': r'\A\s*\{', 'replace': '{ proof { lemma_lits(); lemma_forms_differ(old(out)@); }'},
+        {'rule': 'R1', 'regex': r'(?<![\w.])(for \w+ in [^{]*\{)( let \w+ = \*\w+;)?', 'count': '*',
+         'replace': r'let ghost o0__ = out@; \1\2 proof { if it.index@ < self.data@.len() { lemma_hex_step(self.data@, it.index@ as int); lemma_lit_step(self.data@, it.index@ as int); } }'},
+        {'rule': 'R1', 'regex': r'hoist_write_lit\(out, (">"|r"\)"|"\)")\)', 'count': '*',
+         'replace': r'proof { assert(self.data@.take(self.data@.len() as int) =~= self.data@); } hoist_write_lit(out, \1)'},
      ]},
+  # a byte-set constant that serialize_name may refer to (none in the pinned text): extracted when exactly one exists
+  'const bytes': {'kind': 'decl', 'file': F, 'header': BYTES_CONST_HEADER, 'optional': True,
+     'rewrites': [{'rule': 'R2', 'regex': BYTES_CONST_ITEM, 'replace': _bytes_const}]},
   'serialize_name': {'kind': 'fn', 'file': F, 'container': None, 'name': 'serialize_name', 'props': ['C04'],
      'attrs': ['#[verifier::loop_isolation(false)]'],
      'ensures': [
@@ -68,6 +119,8 @@ UNIT = {
               ('name_spelling', 'out@ == old(out)@ + seq![47u8] + name_body(encode_utf8(s@).take(it.index@ as int))')]},
      },
      'rewrites': SIG + HOISTS + [
+        # R7: `CONST.contains(&b)` on a byte slice -> helper whose contract is Seq::contains (arguments verbatim)
+        {'rule': 'R7', 'regex': r'\b([A-Z][A-Z0-9_]*)\.contains\(\s*&\s*(\w+)\s*\)', 'replace': r'hoist_slice_contains(\1, &\2)', 'count': '*'},
         # R4: `panic!(msg)` -> a diverging fn with `requires false` (same control flow). Needed because the framework
         # cannot attribute a failure whose primary span lies inside a std macro expansion to the extracted item.
         {'rule': 'R4', 'regex': r'panic!\(("[^"]*")\)', 'replace': r'verif_panic(\1)', 'count': '*'},
@@ -86,6 +139,7 @@ UNIT = {
       'bound': 'every string of exactly 2 bytes < 0x80 (literal form), real Vec<u8> sink', 'covers': True,
       'contract': 'serialize returns Ok and out == spell_lit(d): ( ) \\ behind a backslash, CR as \\r, other bytes raw; never panics'},
    ],
-   'jobs': 2, 'timeout': 3000,
+   # the whole cargo-kani run (build + both harnesses, 32 s and 67 s on the pinned tree) holds the shared Kani lock: capped
+   'jobs': 2, 'timeout': 900,
  },
 }
